@@ -369,3 +369,68 @@ def r07_10(ctx, rr):
         rr.ob(ok, key=key)
         if not ok:
             rr.violate(key, "%s does not hash the whole key: %s; distinct keys that agree on the hashed prefix get the same signature for every seed (duplicate-key errors on duplicate-free input, or a build that never succeeds)" % (b.key, why), b.span)
+
+
+@rule("R17.8", props=["C17", "C07", "C08", "C18"], scope_all=True, floor=3, title="RadixKey of the signature/value pairs: the LEVELS levels read LEVELS distinct bytes, eight per signature word (the radix sort that brings equal signatures together orders by every bit)")
+def r17_8(ctx, rr):
+    """Duplicate signatures are found by sorting a shard with a byte-wise radix sort and comparing neighbours. A
+    get_level that reads the same byte at every level (`(level / 8) * 8` for `(level % 8) * 8`) leaves the pairs sorted
+    by that byte only: equal signatures are no longer adjacent, duplicates go unreported and the retry bound that
+    counts them is lost."""
+    from r_ef import _ieval
+    F = ctx.F()
+    impls = [b for b in F.fns() if b.name == "get_level" and (b.impl_trait or "").endswith("RadixKey") and b.file.startswith("src/")]
+    if len(impls) < 3:
+        raise AnchorMissing("expected the RadixKey impls of SigVal<[u64; 1]>, SigVal<[u64; 2]> and LowSortSigVal, found %d" % len(impls))
+    CE = None
+    for b in impls:
+        rr.instances += 1
+        key = "%s:levels-read-distinct-bytes" % short_fn(b.key)
+        lv = [c for c in F.bodies if c.dk in ("AssocConst", "Const") and c.path == b.path.rsplit("::", 1)[0] + "::LEVELS"]
+        levels = None
+        if lv:
+            t = Termizer(F, lv[0]).term(lv[0].body)
+            levels = t[1] if t[0] == "int" else None
+        if levels is None or len(b.params) < 2:
+            rr.violate(key, "reason=anchor-missing: %s: LEVELS could not be read" % b.key, b.span)
+            continue
+        lvl = ("var", b.params[1]["name"], b.params[1]["id"])
+        t = Termizer(F, b).term(b.body)
+        while t[0] == "cast":
+            t = t[2]
+        pairs = []
+        bad = None
+        form = None
+        if t[0] == "op" and t[1] == ">>" and t[2][0] == "index":
+            form = ("shift", t[2][2], t[3])
+        elif t[0] == "index" and t[1][0] == "call" and t[1][1].split("::")[-1] in ("to_le_bytes", "to_be_bytes", "to_ne_bytes") and len(t[1][2]) == 1 and t[1][2][0][0] == "index":
+            # byte k of the little-endian image of a word is the byte at shift 8k (the crate targets little-endian layouts
+            # for its signatures; to_ne_bytes is read as such)
+            form = ("bytes-be" if t[1][1].endswith("to_be_bytes") else "bytes-le", t[1][2][0][2], t[2])
+        if form is not None:
+            for L in range(levels):
+                env = {lvl[1]: L}
+                idx = _ieval(rewrite_term(form[1], lvl, ("var", lvl[1])), env)
+                sh = _ieval(rewrite_term(form[2], lvl, ("var", lvl[1])), env)
+                if sh is not None and form[0] == "bytes-le":
+                    sh = 8 * sh
+                elif sh is not None and form[0] == "bytes-be":
+                    sh = 56 - 8 * sh
+                if idx is None or sh is None:
+                    bad = "level %d could not be evaluated" % L
+                    break
+                pairs.append((idx, sh))
+        else:
+            bad = "get_level is neither `(sig[word] >> shift) as u8` nor `sig[word].to_le_bytes()[byte]`: %s" % tshow(t)[:80]
+        if bad is None:
+            words = sorted(set(p[0] for p in pairs))
+            if len(set(pairs)) != levels:
+                rep = [p for p in pairs if pairs.count(p) > 1][0]
+                bad = "levels 0..%d read only %d distinct bytes (byte %d of word %d is read %d times)" % (levels, len(set(pairs)), rep[1] // 8, rep[0], pairs.count(rep))
+            elif any(p[1] % 8 or not 0 <= p[1] < 64 for p in pairs):
+                bad = "a shift is not a byte position of a 64-bit word: %s" % sorted(set(p[1] for p in pairs))
+            elif any(sorted(p[1] for p in pairs if p[0] == w) != list(range(0, 64, 8)) for w in words):
+                bad = "not all eight bytes of every word read are covered: %s" % pairs
+        rr.ob(bad is None, key=key, sample={"impl": b.key, "LEVELS": levels, "(word, shift) per level": pairs[:16]})
+        if bad is not None:
+            rr.violate(key, "%s: %s: the radix sort used to bring equal signatures together does not order by the whole signature, so duplicates are not adjacent and are not detected" % (b.key, bad), b.span)
